@@ -898,6 +898,9 @@ class Emitter:
             lit = s.lit_name(rty)
             s.ov_helpers.add((m_.group(1), int(m_.group(2)), lit))
             return '__%s_ov_%s_%s(%s)' % (m_.group(1), m_.group(2), lit.split()[-1], ', '.join(args))
+        m_ = re.fullmatch(r'llvm\.(uadd|usub)\.sat\.i(\d+)', name)
+        if m_:
+            return '__v%s_sat_%s(%s)' % (m_.group(1), m_.group(2), ', '.join(args))
         if name.startswith('llvm.trap'): return 'VRT_UB("llvm.trap")'
         if name.startswith('llvm.expect.'): return args[0]
         if name.startswith('llvm.objectsize.'): return '((%s)-1)' % s.cty(rty)
